@@ -69,6 +69,23 @@ type hookRun struct {
 	nested bool // registered by another hook while the hooks were running
 }
 
+// A companion response: a second writer that is alive while the history runs, driven by a short
+// script of its own whose steps are interleaved with the history's operations. What one response
+// does must not reach the other (hooks run on the writer they were registered on, once).
+type compStep struct {
+	kind int // 0 Before, 1 WriteHeader, 2 Write, 3 Flush
+	code int
+	id   int
+	at   int // runs before the history's operation with this index (len(ops): after the last)
+}
+
+type compHook struct {
+	id, step   int
+	onOwnTurn  bool // ran while a companion step was executing
+	sameWriter bool // was handed the companion writer
+	spyHad     int
+}
+
 type opRec struct {
 	call, ret   int64
 	spyAfter    int
@@ -218,6 +235,30 @@ func (Engine) Run(t *tape.Tape, o eng.Opts) *eng.Result {
 		gen.End()
 		ops = append(ops, x)
 	}
+	var comp []compStep
+	if !bulk && sw.Intn(3) == 0 {
+		gen.Begin("companion")
+		at, hid := 0, 0
+		for i, n := 0, 2+gen.Intn(5); i < n; i++ {
+			at += gen.Intn(3)
+			if at > nops {
+				at = nops
+			}
+			st := compStep{kind: gen.Weighted(4, 3, 1, 1), at: at}
+			switch st.kind {
+			case 0:
+				st.id = hid
+				hid++
+			case 1:
+				st.code = codes[gen.Intn(len(codes))]
+				if gen.Intn(5) == 0 {
+					st.code = world.BadCodes[gen.Intn(len(world.BadCodes))]
+				}
+			}
+			comp = append(comp, st)
+		}
+		gen.End()
+	}
 	q := &world.Req{Name: "h", Method: method}
 	q.PlannedCancel = -1
 	if !faultFree {
@@ -285,8 +326,66 @@ func (Engine) Run(t *tape.Tape, o eng.Opts) *eng.Result {
 	var hooks []hookRun
 	recs := make([]opRec, len(ops))
 	curOp := -1
+	// the companion response
+	qb := &world.Req{Name: "b", Method: "GET"}
+	qb.PlannedCancel = -1
+	spyB := world.NewSpy(qb)
+	var wB flamego.ResponseWriter
+	if len(comp) > 0 {
+		wB = flamego.NewResponseWriter("GET", spyB.WriterFacets(true, false, false))
+		res.Probes["companion_responses"]++
+	}
+	compTurn := false // a companion step is executing
+	crossed := 0      // hooks of the history that ran during a companion step
+	var compHooks []compHook
+	compCommit := -1 // step after which the companion's underlying writer held a status
+	var compFails []string
+	compRun := func(pos int) {
+		for si, st := range comp {
+			if st.at != pos {
+				continue
+			}
+			si, st := si, st
+			compTurn = true
+			func() {
+				defer func() {
+					if p := recover(); p != nil {
+						if _, ok := p.(sched.Abort); ok {
+							panic(p)
+						}
+					}
+				}()
+				switch st.kind {
+				case 0:
+					id := st.id
+					wB.Before(func(rw flamego.ResponseWriter) {
+						compHooks = append(compHooks, compHook{id: id, step: -1, onOwnTurn: compTurn, sameWriter: rw == wB, spyHad: spyB.PeekCode()})
+					})
+				case 1:
+					wB.WriteHeader(st.code)
+				case 2:
+					_, _ = wB.Write([]byte("companion"))
+				case 3:
+					wB.Flush()
+				}
+			}()
+			compTurn = false
+			for k := range compHooks {
+				if compHooks[k].step < 0 {
+					compHooks[k].step = si
+				}
+			}
+			if compCommit < 0 && spyB.Code != 0 {
+				compCommit = si
+			}
+			if wB.Status() != spyB.Code || wB.Written() != (spyB.Code != 0) || wB.Size() != len(spyB.Body) {
+				compFails = append(compFails, "after companion step "+itoa(si)+" Status()/Written()/Size() = "+itoa(wB.Status())+"/"+b2s(wB.Written())+"/"+itoa(wB.Size())+" but its underlying writer holds status "+itoa(spyB.Code)+" and "+itoa(len(spyB.Body))+" body bytes")
+			}
+		}
+	}
 	writer := func() {
 		for i, x := range ops {
+			compRun(i)
 			sched.Yield(world.SiteAct)
 			curOp = i
 			r := &recs[i]
@@ -342,6 +441,9 @@ func (Engine) Run(t *tape.Tape, o eng.Opts) *eng.Result {
 							curHist.foreign++
 							return
 						}
+						if compTurn {
+							crossed++
+						}
 						sched.Yield(world.SiteBefore)
 						hooks = append(hooks, hookRun{id: id, during: curOp, status: rw.Status(), spyHad: spy.PeekCode()})
 						rw.Before(func(rw2 flamego.ResponseWriter) {
@@ -357,6 +459,9 @@ func (Engine) Run(t *tape.Tape, o eng.Opts) *eng.Result {
 						if curHist != me {
 							curHist.foreign++ // a hook of an earlier history runs on a later request's writer
 							return
+						}
+						if compTurn {
+							crossed++
 						}
 						sched.Yield(world.SiteBefore)
 						hooks = append(hooks, hookRun{id: id, during: curOp, status: rw.Status(), spyHad: spy.PeekCode()})
@@ -382,6 +487,7 @@ func (Engine) Run(t *tape.Tape, o eng.Opts) *eng.Result {
 				q.Note("FAIL size-truth: after op " + itoa(i) + " Size()=" + itoa(w.Size()) + " but " + itoa(len(spy.Body)) + " body bytes were forwarded")
 			}
 		}
+		compRun(len(ops))
 	}
 	bulkWrites := 0
 	if bulk {
@@ -536,6 +642,58 @@ func (Engine) Run(t *tape.Tape, o eng.Opts) *eng.Result {
 	_ = firstBodyEv
 	if me.foreign > 0 {
 		viol("hooks-once", itoa(me.foreign)+" BeforeFunc(s) registered on an earlier request's writer ran on this one")
+	}
+	// the companion response: nothing crossed over, and its own hooks obey the same rules
+	if len(comp) > 0 {
+		cdesc := func() string {
+			names := []string{"Before", "WriteHeader", "Write", "Flush"}
+			out := ""
+			for i, st := range comp {
+				out += " [" + itoa(i) + "@" + itoa(st.at) + "]" + names[st.kind]
+				if st.kind == 1 {
+					out += "(" + itoa(st.code) + ")"
+				}
+				if st.kind == 0 {
+					out += "#" + itoa(st.id)
+				}
+			}
+			return "\n  companion response (step@before-operation):" + out
+		}
+		if crossed > 0 {
+			viol("hooks-once", itoa(crossed)+" BeforeFunc(s) registered on this response ran while another response that is alive at the same time was being written"+cdesc())
+		}
+		for _, f := range compFails {
+			viol("status-truth", "companion response: "+f+cdesc())
+		}
+		regStep := map[int]int{}
+		for i, st := range comp {
+			if st.kind == 0 {
+				regStep[st.id] = i
+			}
+		}
+		seenC := map[int]int{}
+		for k, h := range compHooks {
+			seenC[h.id]++
+			switch {
+			case seenC[h.id] > 1:
+				viol("hooks-once", "a BeforeFunc of the companion response ran more than once"+cdesc())
+			case !h.onOwnTurn || !h.sameWriter:
+				viol("hooks-once", "a BeforeFunc registered on the companion response ran on (or during an operation of) this response"+cdesc())
+			case h.spyHad != 0:
+				viol("hooks-before-status", "a BeforeFunc of the companion response ran after its status had reached the underlying writer"+cdesc())
+			case compCommit >= 0 && regStep[h.id] > compCommit:
+				viol("hooks-before-status", "a BeforeFunc registered on the companion response after its status had been sent ran nevertheless"+cdesc())
+			case k > 0 && compHooks[k-1].step == h.step && compHooks[k-1].id < h.id:
+				viol("hooks-order", "BeforeFuncs of the companion response ran in registration order"+cdesc())
+			}
+		}
+		if compCommit >= 0 {
+			for id, at := range regStep {
+				if at < compCommit && seenC[id] == 0 {
+					viol("hooks-once", "BeforeFunc "+itoa(id)+" of the companion response, registered before its status was sent, never ran"+cdesc())
+				}
+			}
+		}
 	}
 	// hooks: at most once; observed Status()==0; before the accepted status; reverse order per trigger
 	seenHook := map[int]int{}
@@ -774,4 +932,11 @@ func itoa(i int) string {
 		return string(rune('0' + i))
 	}
 	return itoa(i/10) + string(rune('0'+i%10))
+}
+
+func b2s(b bool) string {
+	if b {
+		return "true"
+	}
+	return "false"
 }
